@@ -390,7 +390,9 @@ func runUfs(c *Case, res *result) (err error) {
 		}
 		nstuck := 0
 		for _, w := range whos {
-			if k.count(w, "respond.unlinked") > 0 {
+			// a pipelined frame the server never read (its writer failed first
+			// and closed the transport) is not a request
+			if k.count(w, "respond.unlinked") > 0 || k.count(w, "recv.dispatch") == 0 {
 				continue
 			}
 			if k.count(w, "respond.posted") > 0 && k.count(w, "respond.queued") == 0 {
